@@ -11,6 +11,8 @@ from __future__ import annotations
 
 import itertools
 
+import numpy as np
+
 from . import core
 from .sarr import SArr, assemble, concatenate_nested
 
@@ -201,6 +203,19 @@ def _zeros_like(a, dtype=None, order="K", subok=True, shape=None):
     return _full_like(a, 0, shape=shape)
 
 
+def _concatenate_axes(arrays, axes):
+    """dask.array.core.concatenate_axes: nesting level k of `arrays` is concatenated along axes[k]"""
+    axes = list(axes)
+
+    def rec(x, level):
+        if level == len(axes):
+            return x
+        parts = [rec(y, level + 1) for y in x]
+        return np.concatenate(parts, axis=axes[level])
+
+    return rec(arrays, 0)
+
+
 def _finalize(results):
     """dask_array._core_utils.finalize: concatenate3 when any nesting level holds more than one entry, else the lone block"""
     if not results:
@@ -213,7 +228,7 @@ def _finalize(results):
     return r2
 
 
-KERNELS = dict(finalize=_finalize, zeros_like=_zeros_like, arange=_arange, concatenate_shaped=_concatenate_shaped, getitem=_getitem, getter=_getter, getter_nofancy=_getter, getter_inline=_getter,
+KERNELS = dict(finalize=_finalize, concatenate_axes=_concatenate_axes, zeros_like=_zeros_like, arange=_arange, concatenate_shaped=_concatenate_shaped, getitem=_getitem, getter=_getter, getter_nofancy=_getter, getter_inline=_getter,
                concatenate3=concatenate_nested, full_like=_full_like)
 SAFE_NAMES = {"add", "sub", "mul", "neg", "getitem", "transpose", "identity"}
 
